@@ -347,10 +347,18 @@ getDoc(
             static_cast<const XalanDocument*>(resolver) :
             resolver->getOwnerDocument();
 
+    const XalanDOMString&   theDocumentURI =
+        executionContext.findURIFromDoc(ownerDocument);
+
+    // A node of a result tree fragment is in a document without a URI.
+    // Its base URI is that of the stylesheet element which created the
+    // fragment...
     getDoc(
         executionContext,
         uri,
-        executionContext.findURIFromDoc(ownerDocument),
+        theDocumentURI.empty() == true && executionContext.getPrefixResolver() != 0 ?
+            executionContext.getPrefixResolver()->getURI() :
+            theDocumentURI,
         mnl,
         resolver,
         locator);
@@ -455,6 +463,16 @@ FunctionDocument::execute(
                     baseNode->getOwnerDocument();
 
                 base = executionContext.findURIFromDoc(baseDoc);
+
+                if (base.empty() == true)
+                {
+                    // The node is in a result tree fragment.  The base URI
+                    // of its nodes is that of the stylesheet element which
+                    // created the fragment...
+                    assert(executionContext.getPrefixResolver() != 0);
+
+                    base = executionContext.getPrefixResolver()->getURI();
+                }
             }
         }
     }
